@@ -19,4 +19,8 @@ def run(P, R, L):
     K.grd18_short_reads(P, R, L)
     R.clause("FS-1", "FileSystem::create_file honours its append flag in every implementation (a re-opened log is continued at its end)")
     K.fs1_create_file_modes(P, R, L)
+    R.clause("GRD-12", "a log is re-opened for appending only when the reader consumed all of it (exact comparison, cursor counting complete reads only)")
+    K.grd12_reuse_only_complete_logs(P, R, L)
+    K.grd12_cursor_counts_complete_reads(P, R, L)
+    K.grd12_fully_consumed_is_exact(P, R, L)
     R.not_decided += ["block-boundary arithmetic beyond the guards above: fragment sizes, trailer padding width, offset bookkeeping after each emit (value level)"]
